@@ -112,3 +112,15 @@ Qed.
 Theorem dpl_two_workers_equals_union mean B k S0 S1 z : B <> 0 -> (k <> 0)%Z ->
   dpl_release mean B k [S0; S1] z = single mean B k (nsum [S0; S1]) z.
 Proof. intros HB Hk. rewrite dpl_release_closed by (auto; discriminate). cbn [length Z.of_nat Pos.of_succ_nat Pos.succ]. lra. Qed.
+
+(* several optimizers built in turn over the same parameters (a second make_private on one engine): on the generated _register_hooks only
+   the LAST optimizer's tensor hook is left on a parameter, so one backward pass clips and accumulates a sample once -- each firing hook adds
+   the clipped gradient c to p.summed_grad, the total is (number of hooks) * c *)
+Theorem dpl_one_hook_after_any_history {H : Type} (hs : list H) (h : H) : fold_left dpl_register (hs ++ [h]) [] = [h].
+Proof. rewrite fold_left_app. reflexivity. Qed.
+Definition dpl_accumulated {H : Type} (hooks : list H) (c : R) : R := INR (length hooks) * c.
+Theorem dpl_accumulates_once {H : Type} (hs : list H) (h : H) (c : R) : dpl_accumulated (fold_left dpl_register (hs ++ [h]) []) c = c.
+Proof. rewrite dpl_one_hook_after_any_history. unfold dpl_accumulated. cbn. lra. Qed.
+(* appending instead of replacing: two optimizers, every sample counted twice *)
+Theorem dpl_append_refuted : exists c : R, dpl_accumulated (fold_left (fun old h => old ++ [h]) [1%nat; 2%nat] []) c <> c.
+Proof. exists 1. unfold dpl_accumulated. cbn. lra. Qed.
